@@ -628,6 +628,19 @@ impl VLog {
 		Ok(pointer)
 	}
 
+	/// Re-binds the value log to the files of its directory after a restore replaced
+	/// them: the writer, the cached read handles and the file registry all refer to
+	/// the files of the discarded timeline (now unlinked), and the next file id has to
+	/// follow the restored files.
+	pub(crate) fn reset_after_restore(&self) -> Result<()> {
+		*self.writer.write() = None;
+		self.file_handles.write().clear();
+		self.files_map.write().clear();
+		self.next_file_id.store(1, Ordering::SeqCst);
+		self.active_writer_id.store(0, Ordering::SeqCst);
+		self.prefill_file_handles()
+	}
+
 	/// Pre-fills the file_handles cache with all existing VLog files
 	fn prefill_file_handles(&self) -> Result<()> {
 		let entries = match std::fs::read_dir(&self.path) {
